@@ -450,7 +450,8 @@ func paths(quick bool) []string {
 	return out
 }
 
-var queries = []string{"", "a=1", "a=1&a=2", "a=1&b=x%20y&c", "a=%26&b=2", "a=1;b=2"}
+// %61=1: the name a written with an escape
+var queries = []string{"", "a=1", "a=1&a=2", "a=1&b=x%20y&c", "a=%26&b=2", "a=1;b=2", "%61=1&b=2"}
 
 func Check() *engine.Check {
 	return &engine.Check{
